@@ -240,11 +240,13 @@ SPECS["C15"] = {
     "shrink_budget": 40,
     "nontrivial": lambda c: any(t in c["tags"] for t in (
         "fragmented-read", "partial-write", "read-pending", "write-pending", "cut", "hand-written",
-        "unportable-kind", "full", "end-after-drop", "large-body")),
+        "unportable-kind", "full", "end-after-drop", "large-body", "sink-closed")),
     "rule": "one script = one direction of one shipped transport: codec in {bincode, json} through the real "
             "tarpc::serde_transport::new(Framed::new(io, LengthDelimitedCodec::new()), codec) over a scripted in-memory "
             "byte stream (cyclic write-acceptance pattern and cyclic read-chunk pattern: byte-at-a-time, frame-straddling, "
-            "coalesced, with Pending results in between; optionally the stream is cut inside its last frame), or "
+            "coalesced, with Pending results in between; optionally the stream is cut inside its last frame; the writing end "
+            "is either dropped or closed with Sink::poll_close and kept alive - the medium records poll_shutdown and the "
+            "reader sees end-of-stream only after a shutdown or a drop), or "
             "transport::channel::{bounded(1..3), unbounded}; 1..7 messages (requests/cancels or ok/err responses; ids and "
             "durations biased to 0, 250, 251, 2^16, 2^32, 2^64-1; every stable io::ErrorKind; empty, multi-byte UTF-8, "
             "JSON-escape-heavy, 250..300-byte and occasionally 64 KiB+ bodies), a third of the JSON scripts and a fifth of "
@@ -848,3 +850,18 @@ SPECS["C10"] = {
     "assumptions": ["one op is atomic (one poll, one drop step, one delivery)",
                     "fewer than 2^64 operations (request ids do not wrap)"],
 }
+
+
+SPECS["C03"] = _client_only(
+    "C03", "c03", "C03client", has("abandon"),
+    "a call future of the real client was dropped after it had been polled",
+    "Theorem C03_client_monitor: for EVERY transport, configuration and op list the client model's trace is accepted by "
+    "the C03 monitor - a cancellation per id at most once, only after its request, never for a call that resolved, and "
+    "after every clean idle dispatch poll every abandoned transmitted request is cancelled on the wire unless it had "
+    "ended (answered, failed to write, deadline or longest timer span passed); invariant: a call's oneshot receiver is "
+    "closed before its id enters the cancel queue, and cancel_request removes the id so a second cancel finds nothing. "
+    "Tied to the real client by abandonment at every suspension point against an idle / at-capacity / not-ready "
+    "dispatch, with the guard's drop split between close and cancel through the yield hook (H3) in half of the "
+    "abandonments.",
+    _CLIENT_NOTE + "Without hook H3 a swap of close() and cancel() in ResponseGuard::drop would be invisible at poll "
+    "granularity; with it the split op GuardClose/GuardCancel has an implementation counterpart.")
